@@ -149,14 +149,17 @@ def run(tier, seed, model):
     class FakeReactor:
         running = True
 
-    class RecProxy:
-        def __init__(self, factory, timeout):
-            pass
+        def callWhenRunning(self, f, *a, **kw):
+            f(*a, **kw)
 
-        def connect(self, host, port=5900, family=0):
-            seen.append((FAM.get(family, family), host, port))
-    saved_reactor = api.reactor
+        def callFromThread(self, f, *a, **kw):
+            f(*a, **kw)
+
+    # the real proxy class (its connect() is part of the path); what reaches the connector is recorded
+    RecProxy = api.ThreadedVNCClientProxy
+    saved_reactor, saved_fc = api.reactor, api.factory_connect
     api.reactor = FakeReactor()
+    api.factory_connect = lambda factory, host, port, family: seen.append((FAM.get(family, family), host, port))
     try:
         extra = [":3", "::6001", "nas.example.org", "vnc-lab:2", "c::5901", "vnc", "n:1", "v.example:0", "/" + "nonexistent/vnc.sock", sockpath]
         pool = [(s_, e) for s_, e, _k in cases if isinstance(e, tuple)]
@@ -180,7 +183,7 @@ def run(tier, seed, model):
                                              "what": f"api.connect({srv!r}) handed {got!r} to the connector, the documented grammar says {tuple(exp)!r}"})
                 break
     finally:
-        api.reactor = saved_reactor
+        api.reactor, api.factory_connect = saved_reactor, saved_fc
     # --- the file system may change between two calls: "UNIX for an existing socket path" is about NOW
     hist = os.path.join(tmp, "later.sock")
     steps = [("before it exists", False), ("after it was created", True), ("asked again", True), ("after it was removed", False),
